@@ -294,6 +294,8 @@ func refDownEq(r3, r2 respValue) bool {
 		return vIsText(r2, x.String())
 	case respVerbatimString:
 		return vIsText(r2, x.text)
+	case respBigNumber:
+		return vIsText(r2, x.bn.String())
 	case respBlobError:
 		e, ok := r2.data.(respErrorString)
 		return ok && vStrEq(string(e), string(x))
@@ -353,4 +355,51 @@ func VerifH_c15_commands() {
 	vAssert("resp2-is-downconversion-of-resp3", refDownEq(r3, r2))
 	vOneFrame("resp2-reply", r2.serialize())
 	vOneFrame("resp3-reply", r3.serialize())
+}
+
+// VerifH_c15_hook: a reply produced by a dispatch hook (the application's
+// own command handler) goes through the same protocol conversion as the
+// replies of the built-in handlers: on a RESP2 connection only RESP2 types,
+// equal to the down-conversion of what a RESP3 connection receives.
+func VerifH_c15_hook() {
+	VerifSetup()
+	which := vChoice("value", 7)
+	hook := DispatchHook(func(cmd string, args map[string]any) (bool, any, error) {
+		if cmd != "get" {
+			return false, nil, nil
+		}
+		switch which {
+		case 0:
+			return true, true, nil
+		case 1:
+			return true, big.NewInt(12345), nil
+		case 2:
+			return true, map[string]any{"a": int64(1)}, nil
+		case 3:
+			return true, 1.5, nil
+		case 4:
+			return true, []any{"x", false, nil}, nil
+		case 5:
+			return true, "plain", nil
+		}
+		return true, map[any]struct{}{"m": {}}, nil
+	})
+	mk := func() *clientState {
+		dss := newDataStoreSet(vLane, "", &hook)
+		return vNewClientOn(newCmdDispatcher(6379, "127.0.0.1", vCmds, vInfo, dss))
+	}
+	c3, c2 := mk(), mk()
+	vCmd(c3, "HELLO", "3")
+	var r3, r2 respValue
+	p3, m3 := vCatch(func() { r3 = vCmd(c3, "GET", "k") })
+	p2, m2 := vCatch(func() { r2 = vCmd(c2, "GET", "k") })
+	vAssert("hook-reply-no-panic", !p3 && !p2)
+	if p3 || p2 {
+		vNote(m3 + m2)
+		return
+	}
+	vAssert("hook-reply-resp2-only-resp2-types", vIsResp2Tree(r2))
+	vAssert("hook-reply-resp2-is-downconversion-of-resp3", refDownEq(r3, r2))
+	// a command the hook declines is answered by the built-in handler
+	vAssert("declined-command-falls-through", vIsOK(vCmd(c2, "SET", "k", "v")))
 }
